@@ -8,7 +8,7 @@ import lib
 from lib import zlit, vlist, vbool
 
 LEVEL = "proof"
-UNITS = ["GenRouter"]
+UNITS = ["GenRouter", "GenTablesWrapper"]
 VEC = {0: (1, 0), 1: (1, 1), 2: (0, 1), 3: (-1, 0), 4: (-1, -1), 5: (0, -1)}
 BUF, RTR_COPY = 0x60240000, 0x70ff0000
 
@@ -422,6 +422,9 @@ def coq_tree(t):
 def coq_trees_case(c):
     routes = vlist("(%s, %s)" % (zlit(n), coq_tree(t)) for n, t in c["routes"])
     nk = vlist("(%s, (%s, %s))" % (zlit(n), zlit(km[0]), zlit(km[1])) for n, km in c["net_keys"])
+    entry = c.get("entry", "r2t")
+    if entry != "r2t":
+        return "tables_digest (build_routing_tables %s %s %s)" % (routes, nk, vbool(entry == "brt-true"))
     return "tables_digest (routing_tree_to_tables %s %s)" % (routes, nk)
 
 
@@ -444,11 +447,26 @@ def coq_load_case(c):
     return "load_case %s %s %s %s" % (m, tables, zlit(c["app_id"]), vbool(c["mode"] == "entries"))
 
 
-def coq_history_case(c, ops):
+def coq_kw(kw):
+    return "(mkKw %s %s %s)" % tuple("None" if kw.get(k) is None else "(Some %s)" % zlit(kw[k])
+                                     for k in ("x", "y", "app_id"))
+
+
+def coq_stmt(s):
+    if s[0] == "with":
+        return "SWith %s %s" % (coq_kw(s[1]), vlist(coq_stmt(k) for k in s[2]))
+    if s[0] == "try":
+        return "STry %s" % vlist(coq_stmt(k) for k in s[1])
+    if s[0] == "load":
+        return "SLoad %s %s %s" % (coq_kw(s[1]), vlist(coq_entry(e) for e in s[2]), zlit(s[3]))
+    return "SRead %s %s" % (coq_kw(s[1]), zlit(s[2]))
+
+
+def coq_history_case(c):
+    """The model runs the PROGRAM: it decides itself which statements execute and which chip and application
+    each one addresses (Model/RouterProgram.v)."""
     m = vlist("(%s, %s)" % (chipl((x, y)), coq_chip(spec)) for x, y, spec in c["chips"])
-    hops = vlist("HLoad %s %s %s %s" % (zlit(o["x"]), zlit(o["y"]), zlit(o["app_id"]), vlist(coq_entry(e) for e in o["es"]))
-                 if o["kind"] == "load" else "HRead %s %s" % (zlit(o["x"]), zlit(o["y"])) for o in ops)
-    return "history_case %s %s" % (m, hops)
+    return "run_program %s %s" % (m, vlist(coq_stmt(s) for s in c["program"]))
 
 
 def coq_case(c):
@@ -456,7 +474,7 @@ def coq_case(c):
 
 
 def canon_history_model(v):
-    items, dig = v
+    ids, (items, dig) = v
     ops = []
     for it in items:
         if it[0] == "inl":
@@ -471,13 +489,13 @@ def canon_history_model(v):
                 rb = [n, [[i, list(e[0]), e[1], e[2], list(e[3]), a, co] for (i, e, a, co) in es]]
             ops.append([["ok"] if rb else ["other"], [canon_titem(k) for k in trace], rb])
     digest = [[x, y, [[[i, list(sl)] for i, sl in d[0]], [list(b) for b in d[1]], d[2]]] for x, y, d in dig]
-    return dict(ops=ops, digest=digest)
+    return dict(ids=list(ids), ops=ops, digest=digest)
 
 
 def canon_history_impl(o):
     ops = [[(["other"] if r["outcome"][0] == "other" else r["outcome"]), r["trace"], r["readback"]] for r in o["ops"]]
     digest = [[x, y, d[:3]] for x, y, d in o["ops"][-1]["digest"]] if o["ops"] else None
-    return dict(ops=ops, digest=digest)
+    return dict(ids=[r["id"] for r in o["ops"]], ops=ops, digest=digest)
 
 
 # ====================================================================== canonical forms
@@ -856,16 +874,15 @@ def run(chk, args):
     if chk.model_ok:
         try:
             header = ("From Coq Require Import ZArith List. Import ListNotations. Open Scope Z_scope.\n"
-                      "Require Import Rig.Model.Base Rig.Model.Tables Rig.Model.Router.\n")
+                      "Require Import Rig.Model.Base Rig.Model.Tables Rig.Model.Router.\n"
+                      "Require Import Rig.Model.TablesWrapper Rig.Model.RouterProgram.\n")
             groups = {"trees": ([], 80), "load": ([], 16), "big": ([], 1), "history": ([], 8)}
             exprs = {}
             for i, (c, o) in enumerate(zip(cases, outs)):
-                if c["kind"] == "trees" and c.get("entry") == "brt-true":
-                    continue      # remove_default_routes is C04's model; here the oracle alone judges
                 if c["kind"] == "history":
                     if not isinstance(o, dict) or not o["ops"]:
                         continue
-                    exprs[i] = coq_history_case(c, flatten(c["program"], {r["id"]: r["outcome"] for r in o["ops"]}))
+                    exprs[i] = coq_history_case(c)
                 else:
                     exprs[i] = coq_case(c)
                 g = "trees" if c["kind"] == "trees" else "history" if c["kind"] == "history" else \
@@ -927,9 +944,10 @@ def run(chk, args):
         "triple and every table length 0..64 in the thorough tier). "
         "Every other well-formed tree case goes through the deprecated build_routing_tables(omit_default_routes=False / "
         "True) instead of routing_tree_to_tables (same oracle; with True an entry may be absent only where the trees "
-        "enter by one link and leave by the opposite one). (iii) histories of 2-12 loads / read-backs on one controller "
+        "enter by one link and leave by the opposite one; both compared exactly with the model build_routing_tables). (iii) histories of 2-12 loads / read-backs on one controller "
         "over four chips (two of them full) whose chip and app id come, wholly or partly, from up to three nested "
         "`with controller(...)` blocks, with failing loads caught inside a block or leaving one or more blocks by the "
-        "exception, followed by implicitly addressed calls; each call is judged on the chip it addresses lexically. "
+        "exception, followed by implicitly addressed calls; each call is judged on the chip it addresses lexically; the "
+        "model (run_program) itself decides which statements execute and what they address. "
         "non-trivial = well-formed and (trees: >= 2 nets; loads: >= 1 entry; histories: >= 2 statements executed); "
         "distinct by hash of the whole input")
